@@ -937,3 +937,11 @@ func (c11) Run(plan interface{}, schedSeed uint64, replay []simrt.Choice, lenien
 	v.Sample = roundsSample(p)
 	return v, out
 }
+
+// RequiredProbes: a batch in which one of these never fired explored nothing of that kind (exit 2, not a pass).
+func (c03) RequiredProbes() []string {
+	return []string{"mode:manual", "mode:until-true", "mode:until-eof", "mode:until-err", "mode:until-nil", "end:final-done", "end:done-with-bits", "end:no-done", "end:nothing-visible"}
+}
+func (c11) RequiredProbes() []string {
+	return []string{"eed-hook-calls", "env-hook-calls", "concurrent-hook-registration"}
+}
